@@ -2,6 +2,7 @@ import Usid.Driver.J
 import Usid.Driver.Process
 import Usid.Driver.Crash
 import Usid.Driver.Groups
+import Usid.Driver.Attrs
 /-! Line-protocol driver over the hand-written models: one JSON request per line on stdin,
     one JSON response per line on stdout. -/
 namespace Usid.Driver
@@ -12,7 +13,8 @@ def handlers : List (String × (Json → R Json)) := [
   ("proc.socket", hSocket),
   ("proc.run", hProcRun),
   ("crash.wf", hCrashWf), ("crash.trace", hCrashTrace), ("crash.resume", hCrashResume),
-  ("grp.run", hGrpRun)
+  ("grp.run", hGrpRun),
+  ("attrs.match", hAttrsMatch)
 ]
 
 def respond (tbl : List (String × (Json → R Json))) (line : String) : String :=
